@@ -39,11 +39,18 @@ class Protocol(Component):
             else:
                 packets.append(remainder)
 
+        error = None
         for packet in packets:
             try:
                 self.__process_packet(packet)
             except ValueError:
                 pass
+            except Exception as exc:
+                # e.g. a failing firewall: the packets behind it are not affected
+                error = error or exc
+
+        if error is not None:
+            raise error
 
     @handler(channel='node_result', priority=100)
     def result_handler(self, event, *args, **kwargs):
